@@ -81,6 +81,9 @@ impl Visit for NoRedeclareVisitor<'_, '_> {
     for id in ids {
       self.declare(&id);
     }
+
+    // The initializer and default values may contain further declarations.
+    v.visit_children_with(self);
   }
 
   fn visit_param(&mut self, p: &Param) {
@@ -89,6 +92,9 @@ impl Visit for NoRedeclareVisitor<'_, '_> {
     for id in ids {
       self.declare(&id);
     }
+
+    // Default values may contain further declarations.
+    p.visit_children_with(self);
   }
 
   fn visit_class_prop(&mut self, p: &ClassProp) {
